@@ -57,4 +57,5 @@ def main() -> None:
             net.fail("ns-in-v1", "namespace row in a version-1 stream", inp, nsrows)
     net.finish("bounded", "as C01, plus entry points stream_frames/flat_stream_to_file/sink.serialize/grouped_stream_to_file and namespace declarations on/off",
                "each case = (entry point, physical type, preset, frame size, ns flag, statement list)")
-main()
+if __name__ == "__main__":
+    main()
